@@ -26,6 +26,7 @@ func profile() sim.Profile {
 	pf.PFaults = 0
 	pf.MinCycles = 1
 	pf.MaxCycles = 2
+	pf.PPersistent = 0 // hostile objects (NaN quotas ...) never compare equal between informer and store
 	return pf
 }
 
